@@ -38,7 +38,7 @@ import Mathlib.Tactic.FieldSimp
 open Finset BigOperators
 
 namespace AbtemVerif.Props.C37
-open AbtemVerif.FiniteDiff AbtemVerif.Gen.FiniteDiff
+open AbtemVerif.FiniteDiff AbtemVerif.Gen.FiniteDiff AbtemVerif.Py
 
 /-- `exp(i x)` -/
 noncomputable def cexp (x : ℝ) : ℂ := Complex.exp (x * Complex.I)
@@ -194,6 +194,107 @@ theorem second_order_symbol (θ d : ℝ) (hd : d ≠ 0) :
     rw [show 2 * (θ / 2) = θ by ring] at this
     rw [this, Real.cos_sq']; ring
   rw [h]; field_simp; ring
+
+/-! ### bridge: the correspondence-tested model `Model/FiniteDiff.laplace` is the `loopSum` the theorems speak about -/
+
+lemma halfWidth_odd (n : ℕ) : stencilHalfWidth ((2 * n + 1 : ℕ) : ℤ) = n := by
+  unfold stencilHalfWidth pyFloorDiv
+  rw [Int.fdiv_eq_ediv_of_nonneg _ (by norm_num)]
+  omega
+
+/-- `np.roll(c, -(len // 2))` followed by Python indexing `c[k]`, `-n ≤ k ≤ n`, reads the centred coefficient `c[n + k]` -/
+theorem rolledAt_eq (c : List Rat) (n : ℕ) (hc : c.length = 2 * n + 1) (k : ℤ) (h1 : -(n : ℤ) ≤ k) (h2 : k ≤ n) :
+    rolledAt c k = c.getD (n + k).toNat 0 := by
+  unfold rolledAt stencilRollShift pyFloorDiv
+  simp only [hc]
+  have hd : Int.fdiv ((2 * n + 1 : ℕ) : ℤ) 2 = n := by
+    rw [Int.fdiv_eq_ediv_of_nonneg _ (by norm_num)]; omega
+  rw [hd]
+  congr 1
+  split_ifs with hk
+  · have : ((2 * n + 1 : ℕ) : ℤ) + k - -(n : ℤ) = (n + k) + ((2 * n + 1 : ℕ) : ℤ) := by ring
+    rw [this, Int.add_emod_right, Int.emod_eq_of_lt (by omega) (by push_cast; omega)]
+  · have : k - -(n : ℤ) = n + k := by ring
+    rw [this, Int.emod_eq_of_lt (by omega) (by push_cast; omega)]
+
+/-- every row of the table, read through the roll/negative-index plumbing of the kernel, is symmetric: `c[-k] = c[k]` -/
+theorem table_rows_symmetric :
+    (fdCoefficients.all fun row => (List.range (row.2.length / 2 + 1)).all fun k =>
+      decide (rolledAt row.2 (-(k : ℤ)) = rolledAt row.2 (k : ℤ))) = true := by
+  decide +kernel
+
+/-- the padding covers the stencil: the padded interior computation reads, for output pixel `i` and offset `k`, a padded index
+inside the padded array that holds pixel `(i + k) mod h` — the stencil with `mode="wrap"` is the periodic stencil of the model. -/
+theorem padding_covers (len : ℤ) (h : ℕ) (i k : ℤ) (hi : 0 ≤ i ∧ i < h)
+    (hk : -(stencilHalfWidth len) ≤ k ∧ k ≤ stencilHalfWidth len) :
+    stencilHalfWidth len ≤ stencilPadding (stencilHalfWidth len) ∧
+    0 ≤ paddedIndex len i k ∧ paddedIndex len i k < h + 2 * stencilPadding (stencilHalfWidth len) ∧
+    (paddedIndex len i k - stencilPadding (stencilHalfWidth len)) % (h : ℤ) = (i + k) % (h : ℤ) := by
+  unfold paddedIndex stencilPadding
+  refine ⟨by omega, by omega, by omega, ?_⟩
+  congr 1; ring
+
+lemma cast_list_range_sum (M : ℕ) (f : ℕ → ℚ) : (((List.range M).map f).sum : ℚ) = ∑ t ∈ range M, f t := by
+  induction M with
+  | zero => simp
+  | succ M ih => rw [List.range_succ, List.map_append, List.sum_append, ih, Finset.sum_range_succ]; simp
+
+lemma halfWidth_nonneg (c : List Rat) : 0 ≤ stencilHalfWidth (c.length : ℤ) := by
+  unfold stencilHalfWidth pyFloorDiv
+  rw [Int.fdiv_eq_ediv_of_nonneg _ (by positivity)]
+  positivity
+
+/-- the complex-linear extension of the model's periodic stencil (`Model/FiniteDiff.laplace`): same coefficient plumbing
+(`rolledAt`), same wrap of the indices, the generated kernel summand over ℂ -/
+noncomputable def laplaceC (c : List Rat) (px py : ℚ) (h w : ℕ) (A : ℤ → ℤ → ℂ) (i j : ℤ) : ℂ :=
+  loopSum (stencilHalfWidth (c.length : ℤ)).toNat fun k =>
+    AbtemVerif.Gen.FiniteDiffC.kernelSummand ((rolledAt c k * px : ℚ) : ℂ) ((rolledAt c k * py : ℚ) : ℂ)
+      (A ((i + k) % (h : ℤ)) j) (A i ((j + k) % (w : ℤ)))
+
+/-- `laplace_cast`: on rational arrays the executable model that is compared with `LaplaceOperator.apply` IS this `loopSum`
+(so `stencil_eigen` and `symmetric_symbol` speak about the correspondence-tested model, extended linearly to complex arrays the
+way the harness feeds real and imaginary parts). -/
+theorem laplace_cast (c : List Rat) (px py : ℚ) (h w : ℕ) (a : ℤ → ℤ → ℚ) (i j : ℤ) :
+    ((laplace c px py h w a i j : ℚ) : ℂ) = laplaceC c px py h w (fun i j => ((a i j : ℚ) : ℂ)) i j := by
+  unfold laplace laplaceC loopSum
+  simp only
+  rw [cast_list_range_sum]
+  push_cast
+  have hn := halfWidth_nonneg c
+  apply Finset.sum_congr rfl
+  intro t _
+  have : ((stencilHalfWidth (c.length : ℤ)).toNat : ℤ) = stencilHalfWidth (c.length : ℤ) := Int.toNat_of_nonneg hn
+  rw [this]
+  unfold AbtemVerif.Gen.FiniteDiff.kernelSummand AbtemVerif.Gen.FiniteDiffC.kernelSummand
+  push_cast
+  rfl
+
+/-- `laplace_planewave_eigen`: the model's periodic stencil maps every lattice plane wave `e^{2πi(kx·i/h + ky·j/w)}` to itself
+times `Σ_k c_k px e^{iθx k} + Σ_k c_k py e^{iθy k}` with the model's own coefficient indexing (`rolledAt`) and index wrap. -/
+theorem laplace_planewave_eigen (c : List Rat) (px py : ℚ) (h w : ℕ) (hh : 0 < h) (hw : 0 < w) (kx ky i j : ℤ) :
+    laplaceC c px py h w (fun i j => cexp (2 * Real.pi * kx / h * (i : ℝ)) * cexp (2 * Real.pi * ky / w * (j : ℝ))) i j
+      = (loopSum (stencilHalfWidth (c.length : ℤ)).toNat (fun k => ((rolledAt c k * px : ℚ) : ℂ) * cexp (2 * Real.pi * kx / h * k))
+          + loopSum (stencilHalfWidth (c.length : ℤ)).toNat (fun k => ((rolledAt c k * py : ℚ) : ℂ) * cexp (2 * Real.pi * ky / w * k)))
+        * (cexp (2 * Real.pi * kx / h * (i : ℝ)) * cexp (2 * Real.pi * ky / w * (j : ℝ))) := by
+  unfold laplaceC
+  simp only [planewave_wrap h hh kx, planewave_wrap w hw ky]
+  exact stencil_eigen _ _ _ (2 * Real.pi * kx / h) (2 * Real.pi * ky / w) i j
+
+/-- concrete run of the convergence logic: a unit mode at rest plus a mode of amplitude 1/5 whose series operator has modulus 4
+(purely imaginary `μ = 4i` in vacuum: the exact evolution `e^{μ}` has modulus one) — the second term has amplitude
+`(1/5)·4²/2! = 1.6 > 1.2` (term `i = 2`), so the loop raises `DivergedError` although the exact propagation preserves the intensity -/
+lemma series_diverges_example : seriesOutcome [(1, 0), (1 / 5, 4)] (1 / 10 ^ 16) 80 = .diverged 2 := by
+  decide +kernel
+
+/-- Negation witness (known finding `vacuum-diverges:mu-max-gt-sqrt2`): it is NOT true that the exponential-series loop
+terminates without `DivergedError` for every superposition of modes with purely imaginary `μ` (i.e. for every vacuum
+propagation, where the exact result preserves the intensity).  A repair (sub-stepping the slice, or testing the partial sum
+instead of single terms) changes the loop, and this statement about the model of the loop with it. -/
+theorem vacuum_series_never_diverges_counterexample :
+    ¬ (∀ (modes : List (Rat × Rat)) (tol : Rat) (maxTerms : Nat), (∀ m ∈ modes, 0 ≤ m.1 ∧ 0 ≤ m.2) →
+        ∀ i, seriesOutcome modes tol maxTerms ≠ .diverged i) := by
+  intro h
+  exact h [(1, 0), (1 / 5, 4)] (1 / 10 ^ 16) 80 (by decide +kernel) 2 series_diverges_example
 
 /-! ### Taylor-remainder step: symbol versus the continuum Laplacian (accuracies 2 and 4), Parseval step -/
 
